@@ -158,7 +158,28 @@ def r07b(ctx):
     le1 = [x for x in cp.calls('core::num::to_le_bytes')]
     le2 = [x for x in cv.calls('core::num::from_le_bytes')]
     rng = lambda a: [flow.show(z) for b in a.calls('core::ops::index::Index::index', 'core::ops::index::IndexMut::index_mut', 'core::slice::index::index', 'core::slice::index::index_mut') for z in [a.arg(b, 1)]]
-    ok = len(le1) == 1 and len(le2) == 1 and any('start: 0' in x and 'end: 3' in x for x in rng(cp)) and any('start: 0' in x and 'end: 3' in x for x in rng(cv))
+
+    def elems(e, base_pred, n):
+        """e is an array aggregate whose first n components are base[0], base[1], .. in order"""
+        return e[0] == 'agg' and e[1] == 'array' and len(e[3]) >= n and all(
+            c[1][0] == 'index' and base_pred(c[1][1]) and c[1][2][:2] == ('const', k) for k, c in enumerate(e[3][:n]))
+    # writer: buf <- bytes [0..3] of num.to_le_bytes(), by sub-slice copy or by an element-wise array
+    is_le = lambda z: z[0] == 'call' and sg(z[1]).endswith('to_le_bytes') and z[2] and z[2][0][0] == 'param'
+    w_slice = len(le1) == 1 and any('start: 0' in x and 'end: 3' in x for x in rng(cp))
+    w_arr = False
+    for b_ in sorted(cp.cfg.reach0):
+        for st_ in cp.blocks[b_]['s']:
+            d_ = st_.get('d')
+            if d_ and d_.get('l') == 1 and d_.get('p') == ['*'] and st_.get('r'):
+                e_ = cp.flow.rvalue(st_['r'], 0)
+                w_arr = w_arr or (elems(e_, is_le, 3) and len(e_[3]) == 3)
+    # reader: from_le_bytes of buf[0..3] followed by a zero byte
+    r_slice = len(le2) == 1 and any('start: 0' in x and 'end: 3' in x for x in rng(cv))
+    r_arr = False
+    for c_ in le2:
+        e_ = cv.arg(c_, 0)
+        r_arr = r_arr or (elems(e_, lambda z: z[0] == 'param' and z[1] == 1, 3) and len(e_[3]) == 4 and e_[3][3][1][:2] == ('const', 0))
+    ok = len(le1) == 1 and len(le2) == 1 and (w_slice or w_arr) and (r_slice or r_arr)
     ctx.check(ok, 'R07b', cp.path, '3-byte range', '-', 'both 3-byte helpers use bytes [0..3] of the little-endian u32')
     # getters/setters pair fields
     for nm, fld in (('compressed_length', 'compressed_length'), ('uncompressed_length', 'uncompressed_length')):
@@ -183,6 +204,24 @@ def steps(a, F):
     dec = [c for c in a.calls() if sg(a.term(c).get('fn', '')).split('::')[-1] in ('decompress_from_reader', 'decompress_from_slice')]
     out['decompress'] = len(dec) == 1 and flow.mentions(a.arg(dec[0], 0), lambda z: z[0] == 'call' and sg(z[1]).endswith('get_compression_scheme') and a.rooted_at(z[2][0], h))
     d = dec[0] if dec else None
+    if not dec:
+        # `header.get_compression_scheme().and_then(|scheme| scheme.decompress_from_..(..))`: the decompression sits in a
+        # closure handed to Result::and_then on the scheme; its result is the and_then call's result
+        for c in a.calls():
+            if sg(a.term(c).get('fn', '')) != 'core::result::Result::and_then' or len(a.term(c)['args']) != 2:
+                continue
+            recv, clo = a.arg(c, 0), a.arg(c, 1)
+            if not (recv[0] == 'call' and sg(recv[1]).endswith('get_compression_scheme') and a.rooted_at(recv[2][0], h)) or clo[0] != 'agg' or clo[1] != 'closure':
+                continue
+            cb_ = F.bodies.get(clo[2])
+            if cb_ is None:
+                continue
+            ac = an(cb_)
+            cd = [x for x in ac.calls() if sg(ac.term(x).get('fn', '')).split('::')[-1] in ('decompress_from_reader', 'decompress_from_slice')]
+            rets_ = [e_ for (_, _, _, e_) in ac.ret_sites()]
+            if len(cd) == 1 and ac.arg(cd[0], 0)[0] == 'param' and ac.arg(cd[0], 0)[1] == 2 and len(rets_) == 1 and ac.rooted_at(rets_[0], cd[0]):
+                out['decompress'] = True
+                d = c
     eq = edges_where(a, lambda op, l, r: op == 'Eq' and ((d is not None and flow.mentions(l, lambda z: a.rooted_at(z, d))) and flow.mentions(r, lambda z: z[0] == 'call' and sg(z[1]).endswith('get_uncompressed_length') and a.rooted_at(z[2][0], h))))
     oks = [(b, si, e) for (b, si, k, e) in a.ret_sites() if k == 'ok']
     out['length check'] = bool(eq) and len(oks) == 1 and a.cfg.must_pass(oks[0][0], via_edges=eq)
@@ -207,7 +246,8 @@ def r07c(ctx):
                   'the %s decoder lacks step "%s" that its sibling performs' % ('sync' if not ss.get(k) else 'async', k))
     # async writes exactly the decompressed data
     wr = [c for c in a.calls('std::io::Write::write_all')]
-    dec = [c for c in a.calls() if sg(a.term(c).get('fn', '')).endswith('decompress_from_slice')]
+    dec = [c for c in a.calls() if sg(a.term(c).get('fn', '')).endswith('decompress_from_slice')] or \
+          [c for c in a.calls() if sg(a.term(c).get('fn', '')) == 'core::result::Result::and_then' and sa.get('decompress')]
     ctx.check(len(wr) == 1 and dec and a.rooted_at(a.arg(wr[0], 1), dec[0]), 'R07c', a.path, 'writes decompressed', '-', 'the async decoder writes exactly the decompressed bytes')
     # header readers validate
     for nm in (CF + 'parse_chunk_header', CF + 'deserialize_async::deserialize_chunk_header::{closure#0}'):
